@@ -293,7 +293,7 @@ func cmdCheck(args []string) int {
 					continue
 				}
 				validated++
-				if d := compareRecord(r, nr); d != "" {
+				if d := compareRecord(r, nr, cfg.Props); d != "" {
 					xmismatch++
 					if len(unconfirmed) < 10 {
 						unconfirmed = append(unconfirmed, "cross-execution mismatch in "+label+": "+d)
